@@ -222,8 +222,8 @@ pub fn gen(id: &str, tier: &str, rng: &mut Rng, emit: &mut dyn FnMut(Op)) {
             let n = if tier == "thorough" { 60000 } else { 4000 };
             fuzz(&pool, n, rng, emit);
         }
-        "C16" => gen_c16(tier, rng, emit),
-        "C20" => gen_c20(tier, rng, emit),
+        "C16" => with_oracle_fuzz(tier, rng, emit, &gen_c16),
+        "C20" => with_oracle_fuzz(tier, rng, emit, &gen_c20),
         _ => {
             eprintln!("idx: unknown property {}", id);
             std::process::exit(2);
